@@ -15,7 +15,7 @@
      pdial c         released; parked at gate session.client.dialed (connected) or returned
      pmeta c         released; Proxy returns; a proxy is called (Hello) and must reach the object the model names
    obs, compared after every command: the outcome, the directory's list and every lookup as a FRESH session sees
-   them, the events a subscriber received during the step, what session.Proxy(n, 1) + Hello of a fresh session
+   them, the events a subscriber received during the step, the requests of the servers that reached the directory during the step, what session.Proxy(n, 1) + Hello of a fresh session
    gives for every name, the identifiers every running server routes, OnTerminate counters, pool sizes.
    Tag "T": one behaviour per transition of the state graph (history hidden by the VIEW, the PrintT inside
    the action).                                                                                        *)
@@ -35,7 +35,8 @@ Obs == [out |-> out,
         pool |-> [c \in Clients |-> Cardinality(conn[c] \cup stale[c])],
         pc |-> [s \in Srv |-> op[s].pc]]
 Selected == SampleMod = 1 \/ TLCGet("generated") % SampleMod = (CHOOSE n \in 0..99 : ToString(n) = IOEnv.SEL)
-Step(o) == /\ hist' = Append(hist, [op |-> o, obs |-> Obs', ev |-> SubSeq(evs', Len(evs) + 1, Len(evs'))])
+Step(o) == /\ hist' = Append(hist, [op |-> o, obs |-> Obs', ev |-> SubSeq(evs', Len(evs) + 1, Len(evs')),
+                                 rq |-> SubSeq(reqs', Len(reqs) + 1, Len(reqs'))])
            /\ Selected => PrintT(<<Tag, ToJson(hist')>>)
 
 GInit == Init /\ hist = <<>>
